@@ -168,7 +168,10 @@ def preState (cl : Bool) (st : Index) (f : Path) (v : Version) (fr : FileRec) : 
 /-- `analyze_file_internal(path, text, cleanup_previous)`; the Boolean result is "panicked". -/
 def analyze (pfx : Path) (cleanup : Bool) (st : Index) (f : Path) (v : Version) : Index × Bool :=
   match v.parsed with
-  | none => ({ st with cache := ainsert st.cache f v }, false)
+  | none =>
+    -- the text does not parse: the recorded data stays, but what other files get THROUGH this one
+    -- is read from its current text, so the version-keyed memos are invalidated all the same
+    ({ st with cache := ainsert st.cache f v, epoch := st.epoch + 1, version := st.version + 1 }, false)
   | some fr =>
     (fr.events.foldl (applyEvent pfx f) (preState cleanup st f v fr),
      fr.events.any (fun e => match e with | .panic => true | _ => false))
